@@ -176,7 +176,8 @@ extern uint64_t g_IE;
                            (uint32_t) state->copy_overflow_length == (w_lit - 254) - w_avail0 &&   \
                            state->next_out == w_out0 + w_avail0 &&                                 \
                            state->write_overflow_len >= 0 && state->write_overflow_len <= 2))      \
-        DL_STRICT_CLAUSE
+        DL_STRICT_CLAUSE                                                                           \
+        DL_M1_CLAUSE
 
 /* RFC 1951: a distance is invalid iff it reaches before the start of the output produced so far -- which
  * includes literals of the same packed group that are decoded but still pending because the window is
@@ -185,6 +186,24 @@ extern uint64_t g_IE;
  * ISAL_OUT_OVERFLOW; native reproduction in replay/decode_loop.c).  It is therefore kept behind
  * -DDL_LOOKBACK_STRICT (registry entry decode_loop_lookback_strict); it is the LAST ensures clause so that
  * the numbering of the other obligations does not depend on it. */
+/* Pending literals, exclusive form (audit round 2, M1): let top be the last packed symbol of the recorded
+ * group.  top < 256: all cnt symbols are literals to replay, the block goes on.  top == 256 (end-of-block):
+ * the cnt-1 symbols below it are the literals, the EOB is NOT replayed, and block_state is the
+ * end-of-block successor.  top > 256 never returns here (it continues into the copy path).  Last ensures
+ * clause(s) so that the numbering of the other obligations is unchanged. */
+#ifdef DL_M1_STRICT
+#define DL_TOP (w_lits >> (8 * (w_cnt - 1)))
+#define DL_M1_CLAUSE                                                                               \
+        __CPROVER_ensures((DL_RET == ISAL_OUT_OVERFLOW && state->copy_overflow_length == 0) ==>    \
+                          (w_cnt >= 1 && DL_TOP <= 256 &&                                          \
+                           (DL_TOP < 256 ==> (state->write_overflow_len == (int32_t) w_cnt &&      \
+                                              state->block_state == ISAL_BLOCK_CODED)) &&          \
+                           (DL_TOP == 256 ==> (state->write_overflow_len == (int32_t) w_cnt - 1 && \
+                                               state->block_state == (state->bfinal ? ISAL_BLOCK_INPUT_DONE \
+                                                                                    : ISAL_BLOCK_NEW_HDR)))))
+#else
+#define DL_M1_CLAUSE
+#endif
 #ifdef DL_LOOKBACK_STRICT
 #define DL_STRICT_CLAUSE                                                                           \
         __CPROVER_ensures(DL_RET == ISAL_INVALID_LOOKBACK ==>                                      \
